@@ -332,6 +332,30 @@ def run(index, rep, tier):
                           "%s constructs and compiles `%s` without is_rooted: the new bipartition's rooting is None, so its split bitmask is normalised as on an unrooted tree - on a rooted tree every clade that contains the namespace's first taxon gets the complement of its leaf set as split, and a lookup of that split in a rooted split distribution (node support, maximum-credibility scores) finds the wrong entry or nothing" % (f.qualname, norm(c)[:70]))
         rep.floor("R01.12", "compiling Bipartition constructions", 3, ncon)
 
+    # ---- R01.13
+    with rep.section("R01.13"):
+        rep.rule("R01.13", "a suppressed node's bipartition is dropped by identity: bipartitions compare and hash by split value, and a unifurcation has the split of its only child - selecting what to drop from the encoding by value also drops the surviving child's entry (C03 R03.4)")
+        rep.floor("R01.13", "borrowed obligations", 3, borrow(index, rep, "C03", {"R03.4"}, "R01.13"))
+
+    # ---- R01.14
+    with rep.section("R01.14"):
+        rep.rule("R01.14", "the normalisation bit follows the tree leaf set: in Bipartition every store to _tree_leafset_bitmask is followed, on every normal path to the return, by a store to _lowest_relevant_bit (a cached bit survives only if it is re-derived: a leaf set that gains a LOWER taxon must move the bit)")
+        bk = index.klass(BIP)
+        nstore = 0
+        for m in bk.methods.values():
+            if m.name == "__init__":
+                continue
+            g = None
+            for w in writes_in(m.node):
+                if not (w.kind == "store" and w.attr == "_tree_leafset_bitmask" and w.base is not None and norm(w.base) == "self"):
+                    continue
+                nstore += 1
+                g = g or cfg_of(m)
+                ok = all(g.must_pass(nd, lambda x: x.kind == "stmt" and isinstance(x.ast, ast.Assign) and any(norm(t) == "self._lowest_relevant_bit" for t in x.ast.targets))[0] for nd in g.nodes_of_stmt(w.stmt))
+                rep.check(ok, "R01.14", m.qualname, "tree leaf set stored without re-deriving the lowest relevant bit on every path", fn_where(m, w.stmt), "%s: _lowest_relevant_bit is assigned on every path after the leaf set changes" % m.name,
+                          "%s stores a new `_tree_leafset_bitmask` and can return without assigning `_lowest_relevant_bit`: a bipartition first compiled against a partial leaf set keeps the old bit when the tree leaf set later gains a lower taxon, so its split is normalised on the wrong taxon - the unrooted rule (lowest taxon present is 0) fails and equal splits hash differently" % m.qualname)
+        rep.floor("R01.14", "stores of the tree leaf set in Bipartition", 1, nstore)
+
     # ---- R01.9
     with rep.section("R01.9"):
         rep.rule("R01.9", "bit-level compatibility has the three-cell normal form: is_compatible_bitmasks answers True exactly when one of m1&m2, m1&~m2, ~m1&m2 is empty (within the fill mask) and never on ~m1&~m2; from_bipartition_encoding hands SPLIT masks to from_split_bitmasks")
